@@ -607,7 +607,7 @@ func run(c Case) ev.Verdict {
 	}()
 
 	rd := time.Duration(c.ReadDelayNS)
-	slack := 4*rd + time.Millisecond
+	slack := 4*rd + time.Millisecond // "a small slack": a few polls ...
 	closeGrace := rd*(rd/1000) + 60*rd // a failed Open also closes the channel
 
 	v := ev.Verdict{OK: true, Classes: []string{"op=" + c.Op, "timeout=" + mode}}
@@ -687,7 +687,9 @@ func run(c Case) ev.Verdict {
 		return ev.Fail("%s stalled after %d of %d bytes: error %v, want a timeout error", c.Op, k, length, got.err)
 	}
 
-	// timing (virtual clock)
+	// timing (virtual clock). The statement allows "a small slack" and does not tie it to the
+	// implementation's polling cadence: 5 % of the timeout in force, at least a few read delays
+	slack = maxDur(slack, applicable/20)
 	upper := applicable + slack
 	if !s.single {
 		// multi-step: every step arms its own timer; measure from the instant the device went quiet
